@@ -1,4 +1,4 @@
-//go:build verif
+//go:build verif && (verif_all || verif_c14)
 
 package types
 
